@@ -31,6 +31,8 @@ IMPORTS = {
     # a class named like a class of another module that stubs import (fxh.Outer): `Outer` from M1 at runtime while the stub
     # brings `Outer` from M2 and another name from M1
     "from_twinmod_Outer": ("from twinmod import Outer", "Outer.Nested.__name__"),
+    # a name imported explicitly and THEN a star import of the same module
+    "from_fxh_Base_then_star": ("from fxh import Base\nfrom fxh import *", "Base.__name__"),
 }
 ANNOS = [None, None, None, "int", "str", "'Base2'", "float"]
 STMTS = ["CONST = 1  # c", "X, Y = 1, 2", "if len('ab') == 2:\n    FLAG = True\nelse:\n    FLAG = False", "try:\n    import json as _j\nexcept ImportError:\n    _j = None",
@@ -245,8 +247,9 @@ def render(spec, pkg=False):
 
 
 def resolve_type(idx, k, pkg_types=None):
-    if pkg_types and idx % len(traced_types()) in (5, 6, 9):
-        return pkg_types[idx % len(pkg_types)]
+    if pkg_types and idx % len(traced_types()) in (5, 6, 9, 13):
+        # classes of the sibling module the source imports relatively: Circle, Square (the one `from .shapes import Square` binds), Tri
+        return pkg_types[{5: 0, 6: 1, 9: 1, 13: 2}[idx % len(traced_types())]]
     t = traced_types()[idx % len(traced_types())]
     if isinstance(t, tuple):
         if k == 0:
